@@ -53,7 +53,9 @@ class Gen:
         r = self.r
         n = r.choice([0, 1, 1, 2, 3])
         atoms = ["a", "B", "9", "_", "+", ".", "x.y", "~~", "~_", "~I", "~/", "~h", "~H", "~f", "~P", "~.", "~1", "~9",
-                 "%41", "%2F", "%2f", "%25", "%7E", "%20", "%C3%A9", "R", "E", "X", "%0A", "%09", "%0D%0A", "%00"]
+                 "%41", "%2F", "%2f", "%25", "%7E", "%20", "%C3%A9", "R", "E", "X", "%0A", "%09", "%0D%0A", "%00",
+                 # scheme names in front of '://' (only some have an entity of their own), '+' and quote characters
+                 "ftp~P", "sftp%3A%2F%2F", "s3~P", "ftp%3A//x", "%2B", "a%2Bb", "%27", "%21", "%2A", "%28%29"]
         return "".join(r.choice(atoms) for _ in range(n))
 
     def param(self, depth):
